@@ -155,6 +155,17 @@ def evaluate(case):
             continue
         if dumped != enc:
             D.append(diff(where + " json_dump=True", "json-dump-differs", enc[:200], short(dumped, 200)))
+        # ... and on ONE object, data first then JSON and the other way round
+        for order in (((False, True), (True, False)) if (case["tier"] == "thorough" or m in ("sql", "bigquery")) else ()):
+            try:
+                p1 = DDLParser(p["ddl"], normalize_names=case["nn"])
+                got = {jd: p1.run(output_mode=m, group_by_type=case["group"], json_dump=jd) for jd in order}
+            except Exception as e:  # noqa
+                D.append(diff(where + " same object json_dump=%s then %s" % order, "raises:" + type(e).__name__, "results", str(e)[:120]))
+                continue
+            if got[True] != enc or isinstance(got[False], str) or json.dumps(got[False]) != enc:
+                D.append(diff(where + " same object json_dump=%s then %s" % order, "json-dump-differs-on-reused-object", enc[:160],
+                              short([got[False], got[True]], 200)))
         if len(D) > 8:
             break
     return {"diffs": D[:8], "nontrivial": ntab > 0, "outcome": "%d" % min(ntab, 30), "extra_evaluations": 2 * len(MODES) - 1}
